@@ -46,6 +46,11 @@ def ev_sum(which, items, s, opaque=False, live=None):
     r, exc = call(lambda: getattr(knapsack, which)(arg if live is not None else list(arg), s))
     e = dict(op=which, items=[list(x) for x in items], s=s, raised=exc, obs=[], kind='fail')
     if opaque: e['opaque'] = True
+    if isinstance(r, list):
+        snapshot = list(r)
+        try: r.append(('junk', 1)); r.reverse()              # the answer belongs to the caller: editing it must not reach into later answers (each call is made twice)
+        except Exception: pass
+        r = snapshot
     if live is not None:
         e['live'] = True
         if len(arg) != len(before) or any(a is not b for a, b in zip(arg, before)): e['kind'] = 'other:argument-list-changed'; return e
@@ -144,6 +149,13 @@ def run(ctx):
         for s in tg:
             ev.append(ev_sum('exactsum', items, s)); ev.append(ev_sum('dynprog', items, s))
         traces.append(dict(ev=ev)); ctx.mark(('large targets', str(items)))
+    # more than 24 items (the judge uses the reachable-sums recurrence instead of enumerating sub-collections)
+    for n in (25, 26, 30):
+        items = [[i + 1, 3 + (i * 7) % 11] for i in range(n)]
+        first = sum(w for _, w in items[:n // 2]); ev = []
+        for s in (first, items[0][1] + items[1][1], sum(w for _, w in items), first + 1, 1, 2, items[0][1], sum(w for _, w in items[:3])):       # (an unreachable target above the total would cost the real exhaustive search minutes)
+            ev.append(ev_sum('exactsum', items, s))
+        traces.append(dict(ev=ev)); ctx.mark(('many items', n))
     # long lists with repeats: a long non-increasing tail that contains the pivot's value (successor / wrap-around)
     for n in ((17, 18, 20, 24, 33) if big else (18, 20, 33)):
         ev = []
